@@ -115,43 +115,46 @@ structure NTInv (st0 : Nat) (s : NSt β) : Prop where
   path : s.fs.path = some 0
   nopd : s.pd = 0
   noev : Ev.remove ∉ s.evq
+  nocr : Ev.create ∉ s.evq
   alive : s.rd ≠ .ended
 
 theorem ntinv_init (c0 : List β) (tail : Bool) : NTInv (start0 (some c0) tail) (ninit (some c0) tail) := by
-  refine ⟨⟨start0 (some c0) tail, rfl, Nat.le_refl _, by simp [ninit]⟩, rfl, rfl, by simp [ninit], by simp [ninit]⟩
+  refine ⟨⟨start0 (some c0) tail, rfl, Nat.le_refl _, by simp [ninit]⟩, rfl, rfl, by simp [ninit], by simp [ninit], by simp [ninit]⟩
 
 theorem ntinv_step {cfg : NCfg} {st0 : Nat} {w : Who} {s s' : NSt β} (hi : NTInv st0 s) (hs : NStepT cfg w s s')
     (hrm' : s'.removes = 0) : NTInv st0 s' := by
-  obtain ⟨⟨p, hf, hle, hlen⟩, hpath, hpd, hev, hal⟩ := hi
+  obtain ⟨⟨p, hf, hle, hlen⟩, hpath, hpd, hev, hcr, hal⟩ := hi
   cases hs with
   | truncate _ i n hp hn =>
-    exact ⟨⟨p, hf, hle, hlen⟩, hpath, hpd, by simpa using hev, hal⟩
+    exact ⟨⟨p, hf, hle, hlen⟩, hpath, hpd, by simpa using hev, by simpa using hcr, hal⟩
   | base hb =>
     cases hb with
-    | append _ i bs hp hne => exact ⟨⟨p, hf, hle, hlen⟩, hpath, hpd, by simpa using hev, hal⟩
+    | append _ i bs hp hne => exact ⟨⟨p, hf, hle, hlen⟩, hpath, hpd, by simpa using hev, by simpa using hcr, hal⟩
     | remove _ i hp => simp at hrm'
     | create _ hp => rw [hpath] at hp; cases hp
-    | noise _ => exact ⟨⟨p, hf, hle, hlen⟩, hpath, hpd, by simpa using hev, hal⟩
+    | noise _ => exact ⟨⟨p, hf, hle, hlen⟩, hpath, hpd, by simpa using hev, by simpa using hcr, hal⟩
     | dispatch _ e rest he =>
-      rw [he] at hev
+      rw [he] at hev hcr
       cases e with
-      | write => exact ⟨⟨p, hf, hle, hlen⟩, hpath, hpd, fun hm => hev (List.mem_cons_of_mem _ hm), hal⟩
+      | write => exact ⟨⟨p, hf, hle, hlen⟩, hpath, hpd, fun hm => hev (List.mem_cons_of_mem _ hm),
+          fun hm => hcr (List.mem_cons_of_mem _ hm), hal⟩
       | remove => exact absurd List.mem_cons_self hev
-      | create => exact ⟨⟨p, hf, hle, hlen⟩, hpath, hpd, fun hm => hev (List.mem_cons_of_mem _ hm), hal⟩
-      | other => exact ⟨⟨p, hf, hle, hlen⟩, hpath, hpd, fun hm => hev (List.mem_cons_of_mem _ hm), hal⟩
+      | create => exact absurd List.mem_cons_self hcr
+      | other => exact ⟨⟨p, hf, hle, hlen⟩, hpath, hpd, fun hm => hev (List.mem_cons_of_mem _ hm),
+          fun hm => hcr (List.mem_cons_of_mem _ hm), hal⟩
     | readSome _ x n hrd hx hn1 hn =>
       rw [hf] at hx; cases hx
-      refine ⟨⟨p + n, rfl, by omega, ?_⟩, hpath, hpd, hev, by simp [hrd]⟩
+      refine ⟨⟨p + n, rfl, by omega, ?_⟩, hpath, hpd, hev, hcr, by simp [hrd]⟩
       simp only [List.length_append, List.length_take]
       have : min n (unread s.fs ⟨0, st0, p⟩).length = n := Nat.min_eq_left hn
       omega
-    | readEmpty _ x hrd hx hu => exact ⟨⟨p, hf, hle, hlen⟩, hpath, hpd, hev, by simp⟩
+    | readEmpty _ x hrd hx hu => exact ⟨⟨p, hf, hle, hlen⟩, hpath, hpd, hev, hcr, by simp⟩
     | readNil _ hrd hx => rw [hf] at hx; cases hx
     | recvW _ hrd hpw =>
       have : (onWrite cfg { s with pw := s.pw - 1 }) = { s with pw := s.pw - 1 } := by
         simp [onWrite, hf]
       rw [this]
-      exact ⟨⟨p, hf, hle, hlen⟩, hpath, hpd, hev, by simp⟩
+      exact ⟨⟨p, hf, hle, hlen⟩, hpath, hpd, hev, hcr, by simp⟩
     | recvD _ hrd hpd' hre => omega
     | recvDPlain _ hrd hpd' hre => omega
 
